@@ -229,7 +229,7 @@ def execute(sc):
             r = run_op(sc, w, seam, mm, extra)
             snap1 = w.snapshot()
         seams.append(seam)
-        fired = sum(seam.fired.values())
+        fired = sum(f_.get('_fired', 0) for f_ in seam.faults)
         if not fired:
             counters['fault_not_reached'] = counters.get('fault_not_reached', 0) + 1
             continue
